@@ -207,8 +207,13 @@ class _WFile(io.RawIOBase):
 class World:
     """Per-run registry: worker ids in spawn order, scripted spawn failures, the event sink."""
 
-    def __init__(self, emit: Callable[..., None], keys: list[list[str]], fail_spawns: set[int] | None = None) -> None:
+    def __init__(self, emit: Callable[..., None], keys: list[list[str]], fail_spawns: set[int] | None = None,
+                 lazy_exit: bool = False) -> None:
         self.emit = emit
+        # lazy_exit: a server that ends BY ITSELF (garbage on its input) stays "running" for poll(): a real process takes
+        # its time to exit after the serve loop has ended, so a poll() made right after cannot see it — the worst case of
+        # that race.  (A killed process and a closed transport are always seen.)
+        self.lazy_exit = lazy_exit
         self.keys = [tuple(k) for k in keys]
         self.workers: list["FakeWorker"] = []
         self.spawn_calls = 0
@@ -301,22 +306,24 @@ class FakeWorker:
                 self.c2s.cv.wait(0.002)
 
     def check_exit(self) -> None:
-        """Quiesce; a server that has ended by itself (garbage on its input) is a dead process: event ["die", wid]."""
+        """Quiesce; a server that has ended by itself (garbage on its input) is a dead process: event ["die", wid] —
+        unless the world is `lazy_exit`, where poll() keeps seeing it running."""
         self.quiesce()
-        if self.proc.returncode is None and not self.thread.is_alive():
+        if self.proc.returncode is None and not self.thread.is_alive() and not self.world.lazy_exit:
             self.proc.returncode = 0 if self.exit == "eof" else 1
             self.world.emit("die", self.wid)
 
     def state(self) -> dict[str, Any]:
         """The real connection state (after quiescence)."""
         self.check_exit()
-        alive = self.thread.is_alive() and self.proc.returncode is None
-        return {"alive": alive, "c2s": len(self.c2s.buf), "s2c": len(self.s2c.buf),
+        alive = self.proc.returncode is None  # what poll() says
+        serving = self.thread.is_alive() and alive  # the server loop is really there
+        return {"alive": alive, "serving": serving, "c2s": len(self.c2s.buf), "s2c": len(self.s2c.buf),
                 "boundary": self.c2s.total_read == self.boundary, "exit": self.exit}
 
     def synced(self) -> bool:
         st = self.state()
-        return bool(st["alive"] and st["c2s"] == 0 and st["s2c"] == 0 and st["boundary"])
+        return bool(st["serving"] and st["c2s"] == 0 and st["s2c"] == 0 and st["boundary"])
 
     def kill(self) -> None:
         """The process dies (SIGKILL): both pipes break."""
